@@ -1,2 +1,230 @@
+"""Translator (tie (a)) for C20: /repo working tree -> coq/Conc/FootprintGen.v
+
+Walks the ast of the three command-line tools' entry functions and of the repository functions
+they call, collects every file effect (open / remove / parseFile / pickle / subprocess / tempfile)
+and abstracts each path expression to a symbolic term over the function's parameters.
+Fail-closed: an effect or a path expression of a shape it does not recognise raises."""
+import ast, os
+
+class Unrecognised(Exception):
+    pass
+
+def _src(repo, rel):
+    return ast.parse(open(os.path.join(repo, rel)).read(), rel)
+
+def _functions(mod):
+    out = {}
+    for n in mod.body:
+        if isinstance(n, ast.FunctionDef): out[n.name] = n
+        if isinstance(n, ast.ClassDef):
+            for m in n.body:
+                if isinstance(m, ast.FunctionDef): out[n.name + "." + m.name] = m
+    return out
+
+# term constructors (python tuples) -> Coq text
+def T_arg(s): return ("arg", s)
+def T_cat(t, lit): return ("cat", t, lit)
+def T_default(a, b): return ("default", a, b)
+SOURCES = ("sources",); FRESH = ("fresh",)
+
+def coq_term(t):
+    if t[0] == "alt": return "(PAlt %s %s)" % (coq_term(t[1]), coq_term(t[2]))
+    if t[0] == "arg": return '(PArg "%s")' % t[1]
+    if t[0] == "cat": return '(PCat %s "%s")' % (coq_term(t[1]), t[2])
+    if t[0] == "default": return "(PDefault %s %s)" % (coq_term(t[1]), coq_term(t[2]))
+    if t[0] == "sources": return "PSources"
+    if t[0] == "fresh": return "PFresh"
+    raise Unrecognised("term " + repr(t))
+
+EFFECT_NAMES = {"open", "remove", "unlink", "rename", "replace", "rmdir", "mkdir", "makedirs", "mkstemp", "mktemp", "NamedTemporaryFile",
+                "TemporaryFile", "system", "Popen", "call", "check_call", "check_output", "run", "copy", "copyfile", "move", "rmtree", "fdopen", "parseFile", "dump", "load"}
+
+def call_name(c):
+    f = c.func
+    if isinstance(f, ast.Name): return f.id
+    if isinstance(f, ast.Attribute): return f.attr
+    return None
+
+def call_qual(c):
+    f = c.func
+    if isinstance(f, ast.Name): return f.id
+    if isinstance(f, ast.Attribute) and isinstance(f.value, ast.Name): return f.value.id + "." + f.attr
+    if isinstance(f, ast.Attribute) and isinstance(f.value, ast.Attribute): return "?." + f.attr
+    return None
+
+class Walker:
+    """symbolic walk of one function body: env maps local names to path terms"""
+    def __init__(self, funcs, rel):
+        self.funcs = funcs; self.rel = rel; self.effects = []
+
+    def term(self, e, env):
+        if isinstance(e, ast.Name):
+            if e.id in env: return env[e.id]
+            raise Unrecognised("%s: path expression uses unknown name %s" % (self.rel, e.id))
+        if isinstance(e, ast.BinOp) and isinstance(e.op, ast.Add) and isinstance(e.right, ast.Constant) and isinstance(e.right.value, str):
+            return T_cat(self.term(e.left, env), e.right.value)
+        if isinstance(e, ast.Attribute) and isinstance(e.value, ast.Name) and e.value.id == "options":
+            return env.get("options." + e.attr, T_arg("--" + e.attr.replace("_", "-")))
+        raise Unrecognised("%s: path expression not recognised: %s" % (self.rel, ast.dump(e)[:120]))
+
+    def walk(self, fname, env, depth=0):
+        if depth > 6: raise Unrecognised("call depth")
+        fn = self.funcs[fname]
+        env = dict(env)
+        for st in fn.body:
+            self.stmt(st, env, fname, depth)
+
+    def stmt(self, st, env, fname, depth):
+        if isinstance(st, ast.Assign) and len(st.targets) == 1:
+            tgt = st.targets[0]
+            try:
+                t = self.term(st.value, env)
+            except Unrecognised:
+                t = None
+            if t is not None:
+                if isinstance(tgt, ast.Name):
+                    env[tgt.id] = t
+                elif isinstance(tgt, ast.Attribute) and isinstance(tgt.value, ast.Name) and tgt.value.id == "options":
+                    env["options." + tgt.attr] = t
+            self.expr(st.value, env, fname, depth)
+            return
+        if isinstance(st, ast.If):
+            # pattern: if not NAME: NAME = default     /   if not options.X: options.X = default
+            test = st.test
+            if isinstance(test, ast.UnaryOp) and isinstance(test.op, ast.Not) and not st.orelse:
+                op = test.operand
+                key = op.id if isinstance(op, ast.Name) else ("options." + op.attr if isinstance(op, ast.Attribute) and isinstance(op.value, ast.Name) and op.value.id == "options" else None)
+                if key is not None:
+                    e1 = dict(env)
+                    for b in st.body: self.stmt(b, e1, fname, depth)
+                    if key in e1 and e1.get(key) != env.get(key):
+                        cur = env.get(key, T_arg("--" + key[8:].replace("_", "-")) if key.startswith("options.") else None)
+                        if cur is None: raise Unrecognised("default of unknown name " + key)
+                        env[key] = T_default(cur, e1[key])
+                        for k in e1:
+                            if k != key and k not in env: env[k] = e1[k]
+                        return
+            self.expr(st.test, env, fname, depth)
+            # generic: walk both branches with copies, then merge names assigned identically
+            e1 = dict(env); e2 = dict(env)
+            for b in st.body: self.stmt(b, e1, fname, depth)
+            for b in st.orelse: self.stmt(b, e2, fname, depth)
+            for k in set(e1) | set(e2):
+                if e1.get(k) == e2.get(k): env[k] = e1[k]
+                elif k in e1 and k in e2: env[k] = ("alt", e1[k], e2[k])
+                else: env[k] = e1.get(k, e2.get(k))
+            return
+        for child in ast.iter_child_nodes(st):
+            if isinstance(child, ast.stmt): self.stmt(child, env, fname, depth)
+            elif isinstance(child, ast.expr): self.expr(child, env, fname, depth)
+            elif isinstance(child, (ast.ExceptHandler,)):
+                for b in child.body: self.stmt(b, env, fname, depth)
+
+    def expr(self, e, env, fname, depth):
+        for c in ast.walk(e):
+            if isinstance(c, ast.Call):
+                self.call(c, env, fname, depth)
+
+    def add(self, mode, t):
+        if isinstance(t, tuple) and t and t[0] == "alt":
+            self.add(mode, t[1]); self.add(mode, t[2]); return
+        if (mode, t) not in self.effects: self.effects.append((mode, t))
+
+    def call(self, c, env, fname, depth):
+        q = call_qual(c); n = call_name(c)
+        if q == "open":
+            mode = c.args[1].value if len(c.args) > 1 and isinstance(c.args[1], ast.Constant) else "r"
+            self.add("MW" if ("w" in mode or "a" in mode) else "MR", self.term(c.args[0], env)); return
+        if q == "os.remove":
+            self.add("MD", self.term(c.args[0], env)); return
+        if q in ("os.path.isfile", "os.path.join", "os.path.dirname"): return
+        if n == "parseFile":
+            self.add("MR", self.term(c.args[0], env)); return
+        if q == "pickle.dump" or q == "pickle.load": return          # on a file object obtained from open()
+        if q == "subprocess.Popen":
+            self.add("MX", T_arg("spuriousbinary")); return
+        if q in ("f.close", "f.write", "outfile.write", "outfile.close", "spo.write", "spo.close"): return
+        # calls into the repository
+        table = {"save": "save", "load": "load", "load_fixed": "load_fixed", "print_list": "print_list", "read_design": "kinetics.read_design"}
+        if n in table and (table[n] in self.funcs):
+            callee = self.funcs[table[n]]
+            params = [a.arg for a in callee.args.args]
+            sub = {}
+            for p, a in zip(params, c.args):
+                try: sub[p] = self.term(a, env)
+                except Unrecognised: pass
+            w = Walker(self.funcs, self.rel); w.effects = self.effects
+            w.walk(table[n], sub, depth + 1); return
+        if n == "load_file":
+            self.add("MR", SOURCES); return
+        if n == "Convert":
+            self.add("MR", self.term(c.args[0], env)); return
+        if n == "output" and isinstance(c.func, ast.Attribute) and isinstance(c.func.value, ast.Name) and c.func.value.id == "convert":
+            self.add("MW", self.term(c.args[0], env)); self.add("MW", FRESH); return      # DNAfold's mkstemp files when findmfe
+        if n in EFFECT_NAMES and q not in ("sys.exit",):
+            raise Unrecognised("%s: %s(): file effect %s not recognised" % (self.rel, fname, q or n))
+
+def check_no_other_effects(mod, rel, allowed_funcs):
+    """functions of the module outside the walked set must not contain file effects"""
+    for name, fn in _functions(mod).items():
+        if name in allowed_funcs: continue
+        for c in ast.walk(fn):
+            if isinstance(c, ast.Call):
+                q = call_qual(c); n = call_name(c)
+                if q in ("open", "os.remove", "os.unlink", "os.rename", "os.replace", "subprocess.Popen", "os.system", "tempfile.mkstemp", "shutil.move", "shutil.copy"):
+                    raise Unrecognised("%s: function %s has a file effect (%s) outside the translated set" % (rel, name, q))
+
+def read_footprints(repo):
+    comp = _src(repo, "peppercompiler/compiler.py")
+    sd = _src(repo, "peppercompiler/design/spurious_design.py")
+    fin = _src(repo, "peppercompiler/finish.py")
+    kin = _src(repo, "peppercompiler/kinetics.py")
+    F = {}
+    F.update(_functions(comp))
+    fx = {}
+    # compiler
+    w = Walker(_functions(comp), "compiler.py")
+    w.walk("compiler", {k: T_arg(k) for k in ("basename", "outputname", "savename", "fixed_file")})
+    fx["compile"] = list(w.effects)
+    check_no_other_effects(comp, "compiler.py", {"compiler", "save", "load", "load_fixed", "main", "fix_signal", "parse_fixed"})
+    wm = Walker(_functions(comp), "compiler.py"); envm = {"basename": T_arg("BASENAME")}
+    main = _functions(comp)["main"]
+    for st in main.body: wm.stmt(st, envm, "main", 0)
+    cli_compile = {k[8:]: v for k, v in envm.items() if k.startswith("options.")}
+    # design
+    funcs = dict(_functions(sd)); funcs["kinetics.read_design"] = _functions(kin)["read_design"]
+    w = Walker(funcs, "spurious_design.py")
+    w.walk("design", {k: T_arg(k) for k in ("basename", "infilename", "outfilename", "tempname", "spuriousbinary")})
+    fx["design"] = list(w.effects)
+    check_no_other_effects(sd, "spurious_design.py", {"design", "print_list", "main"})
+    wm = Walker(funcs, "spurious_design.py"); envm = {"basename": T_arg("BASENAME"), "infilename": T_arg("BASENAME")}
+    for st in _functions(sd)["main"].body: wm.stmt(st, envm, "main", 0)
+    cli_design = {k[8:]: v for k, v in envm.items() if k.startswith("options.")}
+    # finish
+    funcs = dict(_functions(fin)); funcs["load"] = _functions(comp)["load"]; funcs["kinetics.read_design"] = _functions(kin)["read_design"]
+    w = Walker(funcs, "finish.py")
+    # only the part of finish() before the optional kinetics runs is walked (run_kin / spurious default off)
+    w.walk("finish", {k: T_arg(k) for k in ("savename", "designname", "seqsname", "strandsname")})
+    fx["finish"] = list(w.effects)
+    check_no_other_effects(fin, "finish.py", {"finish", "main"})
+    wm = Walker(funcs, "finish.py"); envm = {"basename": T_arg("BASENAME")}
+    for st in _functions(fin)["main"].body: wm.stmt(st, envm, "main", 0)
+    cli_finish = {k[8:]: v for k, v in envm.items() if k.startswith("options.")}
+    return fx, {"compile": cli_compile, "design": cli_design, "finish": cli_finish}
+
 def translate(repo):
-    return "(* placeholder until the C20 translator is written *)\nDefinition footprint_placeholder : True := I.\n"
+    fx, cli = read_footprints(repo)
+    L = ["(* GENERATED on every run by harness/translate_footprint.py from /repo's working tree. Do not edit. *)",
+         "From Coq Require Import List String.", "From PC Require Import Conc.FootprintDefs.", "Import ListNotations.", "Local Open Scope string_scope."]
+    for k in ("compile", "design", "finish"):
+        L.append("Definition %s_fx : list (mode * pterm) := [%s]." % (k, "; ".join("(%s, %s)" % (m, coq_term(t)) for m, t in fx[k])))
+    for k in ("compile", "design", "finish"):
+        items = []
+        for opt, t in sorted(cli[k].items()):
+            items.append('("%s", %s)' % (opt, coq_term(t)))
+        L.append("Definition %s_cli : list (string * pterm) := [%s]." % (k, "; ".join(items)))
+    return "\n".join(L) + "\n"
+
+if __name__ == "__main__":
+    import sys
+    print(translate(sys.argv[1] if len(sys.argv) > 1 else "/repo"))
